@@ -82,13 +82,15 @@ type Step struct {
 type Case struct {
 	Prop string `json:"prop,omitempty"` // "" = C17, "C16B"
 	// ViaHandlers: launch/transition/trigger/kill go through the real executor/handlers.go
-	ViaHandlers bool      `json:"via_handlers,omitempty"`
-	Idx         int       `json:"idx"`
-	Kind        string    `json:"kind"` // basic hook direct fairmq
-	Scenario    string    `json:"scenario"`
-	Variant     string    `json:"variant"`
-	Child       ChildSpec `json:"child"`
-	Steps       []Step    `json:"steps"`
+	ViaHandlers bool `json:"via_handlers,omitempty"`
+	// AgentDown (handler mode): status updates the executor cannot deliver (its Send to the agent fails)
+	AgentDown *AgentDown `json:"agent_down,omitempty"`
+	Idx       int        `json:"idx"`
+	Kind      string     `json:"kind"` // basic hook direct fairmq
+	Scenario  string     `json:"scenario"`
+	Variant   string     `json:"variant"`
+	Child     ChildSpec  `json:"child"`
+	Steps     []Step     `json:"steps"`
 	// KilledOnRequest: the child never ends on its own, so any end of it is caused
 	// by the stop/kill request and a FAILED report after the request is a violation.
 	KilledOnRequest bool `json:"killed_on_request"`
@@ -113,6 +115,15 @@ func (c *Case) opBoundMs(op string) int {
 		return boundFactor * 10000 // TRANSITION_TIMEOUT, responsive children only
 	}
 	return boundFactor * escalationMs
+}
+
+// AgentDown scripts the agent link: Mode "count" refuses the UPDATE calls number From..From+N-1 (counted
+// over all attempts, retries included); Mode "until-terminal" refuses every non-terminal UPDATE until a
+// terminal one has been delivered (each refusal an independent transient fault).
+type AgentDown struct {
+	Mode string `json:"mode"`
+	From int    `json:"from,omitempty"`
+	N    int    `json:"n,omitempty"`
 }
 
 type template struct {
@@ -675,6 +686,32 @@ func handlerTemplates() []template {
 		c.Steps = with(ready, raw("malformed-transition"), raw("unknown-task"), raw("unknown-command"), raw("no-target"), raw("broken-json"),
 			raw("malformed-trigger"), stCONFIGURE, stSTART, stTRIGGER, sleepStep(u(r, 0, 200)), stSTOP, stKILL, stCONFIGURE)
 		c.KilledOnRequest, c.JudgeSurvivors = true, true
+	})
+	// the agent cannot be reached while status updates are due (restart of the agent, HTTP time-out):
+	// whatever the executor does about the updates it could not send, what the agent does receive must
+	// still be at most one terminal status and nothing after it
+	add("basic", "h-agent-down-run-to-end", "exit-0", func(r *rand.Rand, c *Case) {
+		c.Child.LifeMs = u(r, 100, 400)
+		c.AgentDown = &AgentDown{Mode: "until-terminal"}
+		c.Steps = with(ready, stCONFIGURE, stSTART, await("terminal", 1, 8000), sleepStep(300), raw("unknown-command"), sleepStep(200))
+	})
+	for n := 1; n <= 3; n++ {
+		n := n
+		add("basic", "h-agent-down-run-to-end", fmt.Sprintf("exit-3-first-%d-lost", n), func(r *rand.Rand, c *Case) {
+			c.Child.LifeMs, c.Child.ExitCode = u(r, 100, 400), 3
+			c.AgentDown = &AgentDown{Mode: "count", From: 1, N: n}
+			c.Steps = with(ready, stCONFIGURE, stSTART, await("terminal", 1, 8000), sleepStep(300), raw("unknown-command"), sleepStep(200))
+		})
+	}
+	add("basic", "h-agent-down-then-kill", "until-terminal", func(r *rand.Rand, c *Case) {
+		c.AgentDown = &AgentDown{Mode: "until-terminal"}
+		c.Steps = with(ready, stCONFIGURE, stSTART, sleepStep(u(r, 0, 200)), raw("unknown-command"), stKILL, sleepStep(300), raw("unknown-command"), sleepStep(200))
+		c.KilledOnRequest, c.JudgeSurvivors = true, true
+	})
+	add("hook", "h-agent-down-trigger-exit", "exit-0", func(r *rand.Rand, c *Case) {
+		c.Child.LifeMs = u(r, 50, 300)
+		c.AgentDown = &AgentDown{Mode: "until-terminal"}
+		c.Steps = with(ready, stTRIGGER, await("terminal", 1, 8000), sleepStep(300), raw("unknown-command"), sleepStep(200))
 	})
 	if os.Getenv("VERIF_C17_BADLAUNCH") != "" {
 		// opt-in (fires on the unchanged tree, see the report): a LAUNCH whose TaskInfo.Data is empty
